@@ -6,6 +6,7 @@ CONSTANTS
   MaxFee = 1
   MaxDisc = 0
   QLen = 4
+  MaxCrash = 0
   ChanType = "static"
 VIEW View
 INVARIANT TypeOK
